@@ -62,6 +62,9 @@ def main():
         print(json.dumps(out, sort_keys=True))
         sys.exit(0)
     prop = props.PROPS[args.what]
+    if getattr(prop, 'DRIVER', None):
+        code, _ = prop.DRIVER(prop, args.tier, seed, nruns=args.runs, workers=args.workers, wall_cap=args.wall)
+        sys.exit(code)
     code, _ = runner.run_check(prop, args.tier, seed, nruns=args.runs, workers=args.workers, wall_cap=args.wall,
                                only_arm=args.arm, write_evidence=not args.no_evidence,
                                minimise_budget=args.minimise_budget)
